@@ -615,6 +615,9 @@ def unit_layouts(u):
                         else:
                             res.layout_stats["raised_undocumented"] += 1
                         continue
+                    if c.get("as_written_ok") and ast.dump(got) == ast.dump(ast.parse(exp_src, mode="eval").body):
+                        res.layout_stats["recovered_identical"] += 1
+                        continue
                     P = ast.Call(ast.Name("Select", ast.Load()), [ast.Name("ds", ast.Load()), ast.parse(truth_src, mode="eval").body], [])
                     P2 = ast.Call(ast.Name("Select", ast.Load()), [ast.Name("ds", ast.Load()), got], [])
                     if ast.dump(P) == ast.dump(P2):
